@@ -142,7 +142,7 @@ def gen_cpd(rng, sh, card, N, how=None):
 
 # (a generator is not offered: networkx swallows the exception of a rejected edge for iterators and returns an
 # EMPTY graph; pgmpy documents "an edge list or any NetworkX graph object")
-NONE_LATENT = False
+NONE_LATENT = True
 EBFORMS = ["tuples", "lists", "tuple-of-tuples", "digraph"]
 LATFORMS = ["set", "set", "list", "omit"]
 
